@@ -2,7 +2,7 @@
   Driver.TimeCase — timert cases (C14).
 -/
 import Driver.Common
-import Model.CastGen
+import Model.CastMerge
 
 namespace Jl.Driver.TimeCase
 open Jl Jl.Driver
@@ -56,13 +56,13 @@ def runCase (zone srcS extS s1 s2 s3 s4 : String) : Result :=
   | some src =>
     let ext := parseExt extS
     let po (s : String) : Option (Outcome Dyn) := if s == "-" then none else parseOutcome s
-    let m1 := Cast.castNamed genTables ext "ToTime" src
+    let m1 := Cast.castNamed drvTables ext "ToTime" src
     let (m2, m4) : String × String :=
       match m1 with
       | .ok .nil => ("-", "-")
-      | .ok t => (showOutcome (Cast.castNamed genTables ext "ToString" t), showOutcome (Cast.castNamed genTables ext "ToTimestamp" t))
+      | .ok t => (showOutcome (Cast.castNamed drvTables ext "ToString" t), showOutcome (Cast.castNamed drvTables ext "ToTimestamp" t))
       | _ => ("-", "-")
-    let m3 := Cast.castNamed genTables ext "ToTimestamp" src
+    let m3 := Cast.castNamed drvTables ext "ToTimestamp" src
     let ms := showOutcome m1 ++ " / " ++ m2 ++ " / " ++ showOutcome m3 ++ " / " ++ m4
     let norm (s : String) : String := match po s with | some o => showOutcome o | none => "-"
     let is := norm s1 ++ " / " ++ norm s2 ++ " / " ++ norm s3 ++ " / " ++ norm s4
